@@ -125,7 +125,7 @@ type cond struct {
 	Low   bool `json:"low,omitempty"`
 	Tmp   int  `json:"tmp,omitempty"`
 	Use   int  `json:"use,omitempty"`  // specialUse label: 1 reserved, 2 hotRegion
-	Load  int  `json:"load,omitempty"` // 0 empty store, 1 holds 40 regions
+	Load  int  `json:"load,omitempty"` // 0 empty store, 1 holds 40 regions; with Low: 2 = only 5 regions on an almost full disk
 }
 
 func (c cond) good() bool  { return c == cond{} || c == cond{Load: 1} }
@@ -148,7 +148,9 @@ func (c cond) String() string {
 	if c.Use != 0 {
 		l = append(l, "specialUse="+useStr[c.Use])
 	}
-	if c.Load != 0 {
+	if c.Load == 2 {
+		l = append(l, "few-regions")
+	} else if c.Load != 0 {
 		l = append(l, "loaded")
 	}
 	if len(l) == 0 {
@@ -410,14 +412,20 @@ func putStores(e *env, in *input) {
 		}
 		stats := &pdpb.StoreStats{Capacity: 100 * gib, Available: 100 * gib}
 		var o []core.StoreCreateOption
-		if s.Load != 0 {
+		if s.Load == 1 {
 			used := uint64(40 * 96 << 20)
 			stats.UsedSize, stats.Available = used, stats.Capacity-used
 			o = append(o, core.SetRegionCount(40), core.SetRegionSize(40*96))
 		}
 		if s.Low {
 			stats.Available, stats.UsedSize = 1*gib, 99*gib
-			o = append(o, core.SetRegionCount(1000), core.SetRegionSize(1000*96))
+			if s.Load == 2 {
+				// few regions but hardly any space left (1% of a 100 GiB disk, below the 8 GiB
+				// under which a nearly empty store is still trusted): low on space all the same
+				o = append(o, core.SetRegionCount(5), core.SetRegionSize(5*96))
+			} else {
+				o = append(o, core.SetRegionCount(1000), core.SetRegionSize(1000*96))
+			}
 		}
 		switch s.Tmp {
 		case tmpBusy:
@@ -1462,7 +1470,7 @@ func allHealthCombos() []cond {
 	return out
 }
 
-var singleFaults = []cond{{State: stOffline}, {State: stTombstone}, {HB: hbDisconnected}, {HB: hbDown}, {Low: true}}
+var singleFaults = []cond{{State: stOffline}, {State: stTombstone}, {HB: hbDisconnected}, {HB: hbDown}, {Low: true}, {Low: true, Load: 2}}
 var tempFaults = []cond{{Tmp: tmpBusy}, {Tmp: tmpAddLimit}, {Tmp: tmpSnapshots}, {Tmp: tmpPendingPeers}}
 var useFaults = []cond{{Use: 1}, {Use: 2}}
 
